@@ -72,7 +72,11 @@ type c14SchedCall struct {
 	Path   []int
 	Done   bool
 	LagNs  int64 // (t0 - start) + d - dl*2^20: how much earlier than t0+d the deadline lies
-	Stale  bool
+	// the deadline is beyond clockEnd after the schedule; the updater was then seen gone with the
+	// deadline not reached (time CurAtExit): the match holding it can no longer time out
+	Uncovered bool
+	Abandoned bool
+	CurAtExit int64
 }
 
 func c14SchedRun(cs c14Sched) (calls []c14SchedCall, errs string) {
@@ -176,7 +180,7 @@ func c14SchedRun(cs c14Sched) (calls []c14SchedCall, errs string) {
 			g.target = 5
 		}
 	}
-	_, _, _, started, since := regexp2.VerifClockState()
+	_, clockEnd, _, started, since := regexp2.VerifClockState()
 	now := time.Now()
 	if !started {
 		return nil, "clock not started after the schedule"
@@ -188,7 +192,25 @@ func c14SchedRun(cs c14Sched) (calls []c14SchedCall, errs string) {
 		}
 		c := c14SchedCall{G: i, D: cs.D[i], T0Ns: int64(g.t0.Sub(start)), Dl: g.dl, Path: g.path, Done: true}
 		c.LagNs = c.T0Ns + c.D - c.Dl*c14Tick
+		c.Uncovered = c.Dl > clockEnd
 		calls = append(calls, c)
+	}
+	// A deadline beyond clockEnd: the updater will leave its loop before the deadline is reached.  Wait
+	// for that (clockEnd is at most the other deadlines + 1s away) and look: no updater, deadline not reached.
+	for k := range calls {
+		if !calls[k].Uncovered {
+			continue
+		}
+		for w := 0; w < 400; w++ {
+			cur, _, running, _, _ := regexp2.VerifClockState()
+			if !running {
+				calls[k].Abandoned = cur < calls[k].Dl
+				calls[k].CurAtExit = cur
+				break
+			}
+			time.Sleep(10 * time.Millisecond)
+		}
+		break
 	}
 	return calls, ""
 }
@@ -220,6 +242,11 @@ func c14SchedCheck(c *core.Ctx, cases []c14Sched) []core.Outcome {
 			var w *c14SchedCall
 			for k := range calls {
 				cl := &calls[k]
+				if cl.Abandoned && o.Fail == nil {
+					o.Fail = &core.Failure{Kind: "impl-violation", Key: "deadline-not-covered",
+						Summary:  fmt.Sprintf("forced interleaving of %d makeDeadline calls (clock %s, idle %dms): goroutine %d (timeout %dms) was handed the deadline %d ticks, but the clock was set to stop before it; the updater has left its loop at time %d ticks and nothing will advance the time: that match can never time out", len(cs.D), cs.Pre, cs.IdleMs, cl.G, cl.D/c14Ms, cl.Dl, cl.CurAtExit),
+						Expected: "clockEnd >= every deadline handed out (the updater runs until each is reached)", Got: fmt.Sprintf("updater gone at %d ticks, deadline %d ticks", cl.CurAtExit, cl.Dl)}
+				}
 				if try == 0 {
 					path := "points-1-2-only"
 					for _, p := range cl.Path {
@@ -233,7 +260,7 @@ func c14SchedCheck(c *core.Ctx, cases []c14Sched) []core.Outcome {
 					w = cl
 				}
 			}
-			if w == nil {
+			if w == nil || o.Fail != nil {
 				break
 			}
 			confirmed++
@@ -278,7 +305,7 @@ func c14SchedLeg(c *core.Ctx) {
 	h := int64(time.Hour)
 	core.RunLeg(c, core.Leg[c14Sched]{
 		Name: "I", Kind: "oracle",
-		Rule: "forced interleavings on the real clock through the schedule points of the verif build (after the clockEnd read, after the time read, between critical sections): 2-3 concurrent makeDeadline calls (timeouts 30ms, 100ms, 1h) on a clock that is stopped (stale time, idle 0/40/140ms) or running, each goroutine advanced from point to point in a random order with sleeps of 0-60ms between steps. Oracle: no call is handed a deadline earlier than t0 + d - 10ms - 2 ticks (t0 = real time at which the call began); a finding counts when the schedule shows it in 3 of 3 runs. Lean: Props.C14.conc_no_early_deadline over Model/ClockConc.lean. non-trivial = more than one call",
+		Rule: "forced interleavings on the real clock through the schedule points of the verif build (after the clockEnd read, after the time read, between critical sections): 2-3 concurrent makeDeadline calls (timeouts 30ms, 100ms, 1h) on a clock that is stopped (stale time, idle 0/40/140ms) or running, each goroutine advanced from point to point in a random order with sleeps of 0-60ms between steps. Oracle: no call is handed a deadline earlier than t0 + d - 10ms - 2 ticks (t0 = real time at which the call began); a finding counts when the schedule shows it in 3 of 3 runs; and every deadline handed out is covered by clockEnd — if one is not, the leg waits for the updater to leave its loop and reports the deadline that can no longer be reached. Lean: Props.C14.conc_no_early_deadline over Model/ClockConc.lean. non-trivial = more than one call",
 		Corpus: []c14Sched{
 			// B reads the stale time, A restarts the clock completely, B goes on (the race fixed by 648a49f)
 			{PeriodNs: c14Ms, Pre: "stopped", IdleMs: 140, D: []int64{100 * c14Ms, 100 * c14Ms}, Steps: []c14SchedStep{{Op: "begin", G: 1}, {Op: "adv", G: 1, To: 2}, {Op: "begin", G: 0}, {Op: "adv", G: 0, To: 4}, {Op: "adv", G: 1, To: 4}}},
@@ -286,6 +313,8 @@ func c14SchedLeg(c *core.Ctx) {
 			{PeriodNs: c14Ms, Pre: "stopped", IdleMs: 140, D: []int64{h, 100 * c14Ms}, Steps: []c14SchedStep{{Op: "begin", G: 1}, {Op: "begin", G: 0}, {Op: "adv", G: 0, To: 4}, {Op: "adv", G: 1, To: 4}}},
 			// a goroutine held between refreshing the time and restarting the updater; another call arrives later
 			{PeriodNs: c14Ms, Pre: "stopped", IdleMs: 140, D: []int64{100 * c14Ms, 100 * c14Ms}, Steps: []c14SchedStep{{Op: "begin", G: 0}, {Op: "adv", G: 0, To: 3}, {Op: "sleep", Ms: 50}, {Op: "adv", G: 0, To: 4}, {Op: "begin", G: 1}, {Op: "adv", G: 1, To: 4}}},
+			// both calls have decided to take the lock; the one-hour deadline extends the clock first, the short one after it
+			{PeriodNs: c14Ms, Pre: "stopped", IdleMs: 40, D: []int64{h, 30 * c14Ms}, Steps: []c14SchedStep{{Op: "begin", G: 0}, {Op: "adv", G: 0, To: 2}, {Op: "begin", G: 1}, {Op: "adv", G: 1, To: 2}, {Op: "adv", G: 0, To: 4}, {Op: "adv", G: 1, To: 4}}},
 			{PeriodNs: c14Ms, Pre: "stopped", IdleMs: 40, D: []int64{h, 100 * c14Ms, 30 * c14Ms}, Steps: []c14SchedStep{{Op: "begin", G: 0}, {Op: "adv", G: 0, To: 3}, {Op: "begin", G: 2}, {Op: "sleep", Ms: 60}, {Op: "adv", G: 0, To: 4}, {Op: "begin", G: 1}, {Op: "adv", G: 1, To: 4}, {Op: "adv", G: 2, To: 4}}},
 		},
 		N: c.N(12, 300), Gen: c14SchedGen, Check: c14SchedCheck,
